@@ -431,6 +431,8 @@ def init_chain(prog: Program, sev: SEval, cname: str) -> dict:
             raise AnalysisError(f'{cname}: super().__init__ has no target after {fi.cls.name}')
         pos = [p for p in nxt.pos_params if p != 'self']
         new_env = {}
+        env = dict(env)
+        _exec_before(sev, fi, sup, env, cname)
         vals = [sev.ev(a, fi.module, env, self_cls=cname) for a in sup.args]
         for p, v in zip(pos, vals):
             new_env[p] = v
@@ -456,6 +458,93 @@ def init_chain(prog: Program, sev: SEval, cname: str) -> dict:
     stored['*missing'] = env.get('*missing', ())
     stored['*extra'] = env.get('*extra', ())
     return stored
+
+
+def _exec_before(sev, fi, stop_call, env, cname, budget=400) -> None:
+    """evaluate the plain statements of a constructor that precede its ``super().__init__`` call: assignments to locals,
+    ``if`` on an evaluable test (both arms merged when it is not), ``for`` over an evaluable finite collection, ``.append`` /
+    ``.extend`` on a local list.  Declarations only - no method of the package is called."""
+    left = [budget]
+
+    def contains(st):
+        return any(n is stop_call for n in ast.walk(st))
+
+    def run(stmts, env):
+        for st in stmts:
+            left[0] -= 1
+            if left[0] < 0 or contains(st):
+                return False
+            if isinstance(st, (ast.Assign, ast.AnnAssign)):
+                val = st.value
+                tgts = st.targets if isinstance(st, ast.Assign) else [st.target]
+                if val is None:
+                    continue
+                v = sev.ev(val, fi.module, env, self_cls=cname)
+                for t in tgts:
+                    if isinstance(t, ast.Name):
+                        env[t.id] = v
+                    elif isinstance(t, (ast.Tuple, ast.List)) and isinstance(_unwrap(v), (tuple, list)) and len(_unwrap(v)) == len(t.elts):
+                        for el, x in zip(t.elts, _unwrap(v)):
+                            if isinstance(el, ast.Name):
+                                env[el.id] = x
+            elif isinstance(st, ast.If):
+                c = _unwrap(sev.ev(st.test, fi.module, env, self_cls=cname))
+                if isinstance(c, (Unknown, Sym)) or not isinstance(c, (bool, int, type(None))):
+                    a, b = dict(env), dict(env)
+                    run(st.body, a)
+                    run(st.orelse, b)
+                    for k in set(a) | set(b):
+                        if k in a and k in b and repr(a[k]) == repr(b[k]):
+                            env[k] = a[k]
+                        else:
+                            env[k] = Unknown(f'{k} (differs between the arms of an undecided if)')
+                else:
+                    if not run(st.body if c else st.orelse, env):
+                        return False
+            elif isinstance(st, ast.For) and not st.orelse:
+                it = _unwrap(sev.ev(st.iter, fi.module, env, self_cls=cname))
+                if isinstance(it, (tuple, list, range)) and len(it) <= 32:
+                    for x in it:
+                        x = _unwrap(x)
+                        if isinstance(st.target, ast.Name):
+                            env[st.target.id] = x
+                        elif isinstance(st.target, (ast.Tuple, ast.List)) and isinstance(x, (tuple, list)) and len(x) == len(st.target.elts):
+                            for el, y in zip(st.target.elts, x):
+                                if isinstance(el, ast.Name):
+                                    env[el.id] = y
+                        if not run(st.body, env):
+                            return False
+                else:
+                    for n in ast.walk(st):
+                        if isinstance(n, ast.Name) and isinstance(n.ctx, ast.Store):
+                            env[n.id] = Unknown(f'{n.id} (bound in a loop that cannot be unrolled)')
+            elif isinstance(st, ast.Expr) and isinstance(st.value, ast.Call) and isinstance(st.value.func, ast.Attribute) \
+                    and isinstance(st.value.func.value, ast.Name) and st.value.func.attr in ('append', 'extend') and len(st.value.args) == 1:
+                name = st.value.func.value.id
+                cur = env.get(name)
+                v = sev.ev(st.value.args[0], fi.module, env, self_cls=cname)
+                if isinstance(cur, list):
+                    if st.value.func.attr == 'append':
+                        env[name] = cur + [v]
+                    elif isinstance(_unwrap(v), (tuple, list)):
+                        env[name] = cur + list(_unwrap(v))
+                    else:
+                        env[name] = Unknown(f'{name}.extend(<unknown>)')
+            elif isinstance(st, ast.AugAssign) and isinstance(st.target, ast.Name) and isinstance(st.op, ast.Add):
+                cur = env.get(st.target.id)
+                v = _unwrap(sev.ev(st.value, fi.module, env, self_cls=cname))
+                if isinstance(cur, (list, tuple)) and isinstance(v, (list, tuple)):
+                    env[st.target.id] = type(cur)(list(cur) + list(v))
+                else:
+                    env[st.target.id] = Unknown(f'{st.target.id} += ...')
+            elif isinstance(st, (ast.Expr, ast.Pass, ast.Assert)):
+                continue
+            else:
+                for n in ast.walk(st):
+                    if isinstance(n, ast.Name) and isinstance(n.ctx, ast.Store):
+                        env[n.id] = Unknown(f'{n.id} (bound by a statement the evaluator does not interpret)')
+        return True
+    run(fi.body, env)
 
 
 def _has_default(fi, p) -> bool:
